@@ -116,8 +116,19 @@ def seeded_case(case):
 
 def gen(rng, ne, ns):
     cases = []
-    for _ in range(ne):
+    for j in range(ne):
         c = ctl.gen_scenario(rng, max_lines=4, nfaults=(1, 3))
+        if j % 3 == 2:
+            # ICT-based control with communication lines that fail for some hours before a power fault: whether the fault is
+            # sectioned automatically or by hand depends on how long the communication outage lasts
+            from . import c06
+            c = ctl.gen_scenario(rng, max_lines=4, nfaults=(1, 2), ctrl="main")
+            ict = c["spec"]["ctrl"]["ict"] = c06.fallible_ict(rng, c["spec"])
+            if F(c["spec"]["ctrl"]["T"]) == 0:
+                c["spec"]["ctrl"]["T"] = "1"
+            for k, fl in list(c["faults"].items()):
+                for il in range(len(ict["lines"])):
+                    c["faults"].setdefault(str(max(1, int(k) - rng.choice([1, 2]))), []).append([f"IL{il}", str(rng.choice([F(3), F(5)]))])
         c["kind"] = "exact"
         c["units"] = rng.sample([1, 2, 4, 5], 2)
         cases.append(c)
